@@ -1387,3 +1387,61 @@ func (cx *Ctx) checkRequestNotRewritten(r *Report) {
 	}
 	r.Ok("R-WHO", "request-not-rewritten", "", fmt.Sprintf("no Host-rewriting middleware in the handler chain, %d candidate stores examined", n))
 }
+
+// errNilSides: the blocks entered when the error value e (or an alias) is found nil.
+func (fx *Facts) errNilSides(e ssa.Value) []*ssa.BasicBlock {
+	var out []*ssa.BasicBlock
+	for _, a := range fx.aliasesOf(e) {
+		for _, ref := range nonDebugRefs(a) {
+			b, ok := ref.(*ssa.BinOp)
+			if !ok {
+				continue
+			}
+			x, _, isNT := nilTest(b)
+			if !isNT || x != a {
+				continue
+			}
+			conds := []ssa.Value{b}
+			for i := 0; i < len(conds); i++ {
+				for _, r2 := range nonDebugRefs(conds[i]) {
+					switch y := r2.(type) {
+					case *ssa.UnOp:
+						if y.Op == token.NOT {
+							conds = append(conds, y)
+						}
+					case *ssa.If:
+						_, tnn, _ := nilTest(y.Cond)
+						if tnn {
+							out = append(out, y.Block().Succs[1])
+						} else {
+							out = append(out, y.Block().Succs[0])
+						}
+					}
+				}
+			}
+		}
+	}
+	return out
+}
+
+// constCallResult: v is the result of a statically called module function with one result whose every return yields
+// the same constant: that constant.
+func constCallResult(v ssa.Value) *ssa.Const {
+	c, ok := v.(*ssa.Call)
+	if !ok {
+		return nil
+	}
+	g := calleeOf(c)
+	if g == nil || g.Blocks == nil || g.Pkg == nil || !isModulePath(g.Pkg.Pkg.Path()) || g.Signature.Results().Len() != 1 {
+		return nil
+	}
+	var k *ssa.Const
+	for _, ret := range returnsOf(g) {
+		rc, isC := ret.Results[0].(*ssa.Const)
+		if !isC || rc.Value == nil || k != nil && k.Value.ExactString() != rc.Value.ExactString() {
+			return nil
+		}
+		k = rc
+	}
+	return k
+}
